@@ -58,6 +58,9 @@ type Task struct {
 	prio  int
 	steps int
 	stuck bool // self-deadlocked: never resumed again
+
+	// Acquired lists the simulated locks granted to the task since the world last cleared it.
+	Acquired []*SimLock
 }
 
 // Point returns the hook point or step label the task is parked at.
@@ -247,6 +250,10 @@ func (s *Sim) LogHash() uint64 {
 
 // Violate records an oracle failure; the first one ends the run.
 func (s *Sim) Violate(prop, oracle, format string, args ...any) {
+	if s.aborted.Load() {
+		// the run is being torn down: tasks are released without the scheduler's guarantees
+		return
+	}
 	detail := fmt.Sprintf(format, args...)
 	s.mu.Lock()
 	if s.violation == nil {
@@ -729,6 +736,10 @@ func (s *Sim) resumeTask(t *Task, ran *Task, R []*Task) {
 	if t.wantLock != nil {
 		t.wantLock.Owner = t
 		t.wantLock.Acq++
+		t.Acquired = append(t.Acquired, t.wantLock)
+		if len(t.Acquired) > 64 {
+			t.Acquired = t.Acquired[32:]
+		}
 		t.wantLock = nil
 	}
 	t.cond = nil
